@@ -60,6 +60,7 @@ type Scenario struct {
 	AllowDrop        bool            `json:"allow_drop,omitempty"`
 	AllowDup         bool            `json:"allow_dup,omitempty"`
 	DropAll          bool            `json:"drop_all,omitempty"` // preset: watch events are dropped by default
+	HoldWatch        bool            `json:"hold_watch,omitempty"` // preset: watch events (not the nil marker) are held back by default; delivering one is a deviation
 	SplitApply       bool            `json:"split_apply,omitempty"`
 	RandMenu         []float64       `json:"rand_menu,omitempty"`
 	MoveScript       bool            `json:"move_script,omitempty"`
